@@ -34,6 +34,11 @@ def t_loc(chk, ix):
     rules_location.check_name_selection(chk, ix)
     rules_location.check_location_parsing(chk, ix)
     rules_location.check_walk_scenarios(chk, ix, "L10")
+    # file:LINE addresses the lines the parser recorded: every element, every table row carries its own line
+    from .. import rules_parser
+    rules_parser.check_line_numbers(chk, ix)
+    chk.rules.pop("E4", None)
+    chk.findings[:] = [f_ for f_ in chk.findings if f_.rule != "E4"]
     funcs = [ix.func("behave.runner_util:FeatureLineDatabase.select_scenarios_by_line"),
              ix.func("behave.runner_util:FeatureLineDatabase.make_line_data_for"),
              ix.func("behave.model:ScenarioContainer.walk_scenarios")]
@@ -43,5 +48,5 @@ def t_loc(chk, ix):
 
 def run(chk, ix, tier):
     t_loc(chk, ix)
-    for r, n in (("B1", 1), ("B4", 1), ("L1", 4), ("L3", 2), ("L4", 6), ("L6", 3), ("L7", 8), ("L8", 3), ("L9", 11), ("L10", 3), ("RF1", 1), ("G4", 16)):
+    for r, n in (("B1", 1), ("B4", 1), ("L1", 4), ("L3", 2), ("L4", 6), ("L6", 3), ("L7", 8), ("L8", 3), ("L9", 11), ("L10", 3), ("P3", 12), ("RF1", 1), ("G4", 16)):
         chk.require_instances(r, n)
